@@ -486,6 +486,8 @@ class Messenger(Connection):
         # Set after SESS_TERM sent
         self._in_term = False
         self._in_term_func = None
+        # Set after SESS_TERM received
+        self._term_recv = False
 
         self._tls_attempt = False
         # Assume socket is ready
@@ -1037,6 +1039,7 @@ class Messenger(Connection):
         self._sessinit_this = None
         self._in_sess = False
         self._in_term = False
+        self._term_recv = False
 
         if not self._as_passive:
             # Passive side listens first
@@ -1268,12 +1271,13 @@ class ContactHandler(Messenger, dbus.service.Object):
 
     def _check_sess_term(self):
         ''' Perform post-termination logic. '''
-        if self._in_term and self.is_sess_idle():
+        if self._in_term and self._term_recv and self.is_sess_idle():
             self._logger.info('Closing in terminating state')
             self.close()
 
     def recv_sess_term(self, reason):
         Messenger.recv_sess_term(self, reason)
+        self._term_recv = True
 
         # No further processing
         while self._tx_pend_start:
